@@ -883,6 +883,27 @@ fn mon(args: &Args) {
                 st.collision(name, "shared", &secret, &base, &m);
             }
         }
+        // a malformed tag (prefix / extension of the good one) authenticates nothing, in particular
+        // not a modified record list
+        if let Some(s) = secret32(&secret) {
+            let n32 = if base.nonce.len() == 32 { arr32(&base.nonce) } else { rng.bytes32() };
+            let good = core_tag(&secret, &n32, &base.rs);
+            let mut other = base.rs.clone();
+            other.push(("k".to_string(), 1, vec![1]));
+            let mut ext = good.clone();
+            ext.push(0);
+            for (name, recv) in [("malformed-tag:empty", vec![]), ("malformed-tag:1", good[..1].to_vec()),
+                                 ("malformed-tag:31", good[..31].to_vec()), ("malformed-tag:33", ext)] {
+                for rs in [&base.rs, &other] {
+                    *st.tried.entry(name.to_string()).or_default() += 1;
+                    if helper_check(s, &[n32], rs, &recv) {
+                        *st.accepted.entry(name.to_string()).or_default() += 1;
+                        emit("FORGERY", json!({"what": name, "secret": hex::encode(&secret), "nonce": hex::encode(n32),
+                            "rs": j_rs(rs), "received": hex::encode(&recv), "good_tag_for": j_rs(&base.rs)}));
+                    }
+                }
+            }
+        }
         // client and server tags of one put differ
         if let Some(s) = secret32(&secret) {
             let h = ExternalPersistHelper::new(s);
